@@ -241,13 +241,15 @@ def rvbRawMult (E : Ising) (c : Config) (R : Region) : Rat :=
   let (P, a, _) := extract E c R
   rawMult P (a.map List.length)
 
-/-- the value `calculate_flip_prob` returns, computed in the code's order including the early
-exit once the running product is below `f64::EPSILON` (then the value is a truncated product,
-itself below EPSILON times the last pending factor). Returns the value and "left early". -/
+/-- the value `calculate_flip_prob` returns, computed in the code's order: once the running
+product falls below `f64::EPSILON` the sweep is abandoned and the value is exactly 0 (the proposal
+is rejected outright — /repo fc31be1, finding F19; before that fix the truncated product was
+returned and the half-swept membership could reach `mutate_graph`). Returns the value and
+"left early". -/
 def rvbCodeMult (E : Ising) (c : Config) (R : Region) : Rat × Bool :=
   let s0 : Sweep := { st := c.state, mask := R.mask0, tog := R.toggles }
   let s := Sweep.runCode E R s0 0 c.slots
-  ((s.commit E).mult, s.broke)
+  if s.broke then (0, true) else ((s.commit E).mult, false)
 
 /-- the acceptance probability of the proposal -/
 def rvbAcceptProb (E : Ising) (c : Config) (R : Region) : Rat :=
